@@ -85,9 +85,19 @@ fn set_avp_len(b: &[u8], off: usize, v: usize) -> Option<Vec<u8>> {
 /// at guard +-1. `f(kind, octets)`.
 pub fn enumerate_single_faults(base: &[u8], lay: &Layout, f: &mut dyn FnMut(&'static str, Vec<u8>)) {
     let n = base.len();
-    // EOF at every octet
-    for k in 0..n {
-        f("truncate", base[..k].to_vec());
+    // EOF at every octet (large messages: every octet of the first and last
+    // 96, and about 300 evenly spaced points in between)
+    if n <= 1500 {
+        for k in 0..n {
+            f("truncate", base[..k].to_vec());
+        }
+    } else {
+        let step = ((n - 192) / 300).max(1);
+        let mut k = 0;
+        while k < n {
+            f("truncate", base[..k].to_vec());
+            k += if k < 96 || k + 96 >= n { 1 } else { step };
+        }
     }
     // every bit of the message header
     for i in 0..lay.hdr_len.min(n) {
@@ -97,8 +107,9 @@ pub fn enumerate_single_faults(base: &[u8], lay: &Layout, f: &mut dyn FnMut(&'st
             f("bitflip-msg-header", o);
         }
     }
-    // every bit of every AVP header (first 24 records)
-    for &(s, _) in lay.records.iter().take(24) {
+    // every bit of every AVP header (first 24 records; 6 for large messages)
+    let max_recs = if n <= 1500 { 24 } else { 6 };
+    for &(s, _) in lay.records.iter().take(max_recs) {
         for i in s..(s + 6).min(n) {
             for bit in 0..8 {
                 let mut o = base.to_vec();
@@ -174,7 +185,7 @@ pub fn enumerate_single_faults(base: &[u8], lay: &Layout, f: &mut dyn FnMut(&'st
         .last()
         .map(|&(s, l)| s + l)
         .unwrap_or(lay.hdr_len);
-    for &(s, l) in lay.records.iter().take(24) {
+    for &(s, l) in lay.records.iter().take(max_recs) {
         let attr = u16::from_be_bytes([base[s + 4], base[s + 5]]);
         let min = fmt_of(attr).map(min_payload).unwrap_or(0);
         let remaining = end - s;
